@@ -78,6 +78,14 @@ func c19Specs() map[string][]byte {
 	f := specgen.NewDoc("F")
 	f.Root["paths"] = specgen.M{}
 	out["F"] = specgen.MustJSON(f.Root)
+	// G: a components section holding nothing goag renders into components.go
+	// (a security scheme, a parameter): "has components" and "has something to
+	// render" are two questions
+	g := specgen.NewDoc("G")
+	g.Comp("securitySchemes", "bearerAuth", specgen.M{"type": "http", "scheme": "bearer"})
+	g.Comp("parameters", "Limit", specgen.ParamNode("limit", "query", false, specgen.Prim("integer", "int32")))
+	g.Op("/secured", "get", specgen.M{"security": specgen.L{specgen.M{"bearerAuth": specgen.L{}}}, "parameters": specgen.L{specgen.Ref("parameters", "Limit")}})
+	out["G"] = specgen.MustJSON(g.Root)
 	return out
 }
 
@@ -167,7 +175,7 @@ func C19(r *core.Run) int {
 		nRand = 2500
 	}
 	rng := rand.New(rand.NewSource(r.Seed))
-	specKeys := []string{"A", "B", "C", "D", "E", "F"}
+	specKeys := []string{"A", "B", "C", "D", "E", "F", "G"}
 	for i := 0; i < nRand; i++ {
 		n := 4 + rng.Intn(5)
 		var h []c19Inv
@@ -183,6 +191,13 @@ func C19(r *core.Run) int {
 			h = append(h, inv)
 		}
 		histories = append(histories, h)
+	}
+	// every spec with rendered components followed by the one whose components render nothing
+	for _, first := range []string{"A", "C", "E"} {
+		for _, cl := range []bool{true, false} {
+			histories = append(histories, []c19Inv{{Spec: first, Client: cl, API: true, DNE: true, Package: "gen"}, {Spec: "G", Client: cl, API: true, DNE: true, Package: "gen"}},
+				[]c19Inv{{Spec: first, Client: cl, API: true, DNE: false, Package: "gen"}, {Spec: "G", Client: !cl, API: true, DNE: false, Package: "gen"}, {Spec: "G", Client: cl, API: true, DNE: true, Package: "gen"}})
+		}
 	}
 	// reference: single run of an invocation into an empty directory
 	refMu := sync.Mutex{}
